@@ -92,6 +92,9 @@ type c15Faults struct {
 	Fin    string `json:"fin"`    // the Update issued by AddFinalizer / RemoveFinalizer: "" or an error class as for Upd
 	Stat   string `json:"stat"`   // client.Status().Update of the revision: "" or an error class
 	Env    string `json:"env"`    // third-party write to the revision right after the reconciler read it (= a stale cached read): "" | touch | wipe | recreate | flip
+	PullCfg string `json:"pullCfg"` // config.PullSecretFor fails in the revision reconciler: listing ImageConfigs returns an error of this class ("" = succeeds; classes as for sigCfg)
+	Rel    string `json:"rel"`    // deactivateRevision: objects.ReleaseObjects fails with this error class ("" = succeeds; reached by inactive revisions only)
+	Dep    string `json:"dep"`    // lock.Resolve fails with this error class (reached only by revisions that resolve dependencies)
 }
 
 // c15Oracle: facts decided by libraries/timing that the model is told.
@@ -109,7 +112,7 @@ type c15Step struct {
 	Nest    string    `json:"nest"`    // with par: "" free-running goroutines | upd | est: this reconcile is parked inside its metadata Update / inside Establish while the next step's reconcile runs from start to end (a deterministic interleaving at API-call granularity)
 	F       c15Faults `json:"f"`       // sig steps use getE and stat only
 	O       c15Oracle `json:"o"`
-	SigCfg  string    `json:"sigCfg"` // sig: "" (the real ImageConfigStore over the ImageConfigs of the world) | err (listing ImageConfigs fails)
+	SigCfg  string    `json:"sigCfg"` // sig: "" (the real ImageConfigStore over the ImageConfigs of the world) | listing ImageConfigs fails with an error of class err (plain) | nokind (meta.NoKindMatchError: the API is not served) | noresource (meta.NoResourceMatchError) | timeout | unavailable | forbidden
 	Cfgs    []c15Cfg  `json:"cfgs"`   // cfg: the user replaces the cluster's ImageConfigs by these
 }
 
@@ -129,15 +132,37 @@ type c15Rev struct {
 	Source string   `json:"source"`
 	SKey   string   `json:"skey"` // cache path key of Source (pull policy Never)
 	Docs   []c15Doc `json:"docs"`
-	Shape  int      `json:"shape"` // stream formatting variant (not seen by the model)
+	Shape  int      `json:"shape"` // stream formatting variant (bits: 1 leading separator, 2 trailing separator, 4 leading comment, 8 doubled separators, 16 separators with a comment, 32 a blank/comment-only document, 64 a malformed separator); the model sees its effect as Lines
 	Img    string   `json:"img"`   // annotated | multi | plain | plain2 | twoann | nofile
 	Never  bool     `json:"never"`
 	Ignore bool     `json:"ignore"`
 	Pre    string   `json:"pre"` // cold | warm | nohdr | hdr   (cache entry under the id before the first step)
+	Resolve bool    `json:"resolve"` // spec.skipDependencyResolution = false (set, as the package manager does): lock.Resolve runs
+	Layers []c15LayerDesc `json:"layers"` // the layers of the image, as ImageBackend.Init sees them (filled by the harness from Img)
+	Lines  []string `json:"lines"` // the lines of the rendered stream, classified by an independent tokenizer and run-length encoded: sep | sepc | badsep | comment | blank | b<i> (a payload line of document i), each optionally x<count> (filled by the harness)
+}
+
+// c15LayerDesc describes a run of N equal layers of an image: the io.crossplane.xpkg
+// annotation of the descriptor and the entries of the tarball, in order.
+type c15LayerDesc struct {
+	Ann   string        `json:"ann"`   // "" (no such annotation) | base | other (another value)
+	Files []c15FileDesc `json:"files"` // tar entries in order
+	N     int           `json:"n"`     // number of such layers (0 = 1)
+	// how the harness builds it (not seen by the model)
+	annot map[string]string
+	src   bool // the layer the effective stream comes from (where a source read fault is armed)
+}
+
+// c15FileDesc is one tar entry: its name as written into the header, and what it holds:
+// real (the declared stream) | decoy (another, installable package stream) | junk.
+type c15FileDesc struct {
+	Name string `json:"name"`
+	C    string `json:"c"`
 }
 
 type c15Scn struct {
-	Kind    string    `json:"kind"` // rev | build | ids
+	Kind    string    `json:"kind"` // rev | build | ids | tee
+	Tee     *c15TeeScn `json:"tee,omitempty"` // kind tee: the teeReadCloser test (c15_tee.go)
 	Feature bool      `json:"feature"`
 	Revs    []c15Rev  `json:"revs"`
 	Cfgs    []c15Cfg  `json:"cfgs"` // ImageConfigs present from the start (sorted by name)
@@ -412,24 +437,95 @@ func c15Body(gvk, name string, idx int) string {
 // first byte of document i, ends[i] the offset just behind its last byte.
 func c15Stream(docs []c15Doc, shape int) (stream []byte, starts, ends []int) {
 	var sb bytes.Buffer
+	sep := "---\n"
+	if shape&16 == 16 {
+		sep = "--- # next document\n" // blanks and a comment may follow the separator
+	}
 	if shape&1 == 1 {
-		sb.WriteString("---\n")
+		sb.WriteString(sep)
 	}
 	if shape&4 == 4 {
 		sb.WriteString("# package stream\n")
 	}
 	for i, d := range docs {
 		if i > 0 {
-			sb.WriteString("---\n")
+			sb.WriteString(sep)
+			if shape&8 == 8 {
+				sb.WriteString("---\n") // a doubled separator: no document in between
+			}
+			if shape&32 == 32 && i == 1 {
+				sb.WriteString("\n  \n# nothing here\n---   \n") // a document of blank lines and a comment
+			}
+			if shape&64 == 64 && i == 1 {
+				sb.WriteString("---oops\n") // not a separator: a syntax error of the YAML reader
+			}
 		}
 		starts = append(starts, sb.Len())
 		sb.WriteString(c15RenderDoc(d, i))
 		ends = append(ends, sb.Len())
 	}
+	if shape&64 == 64 && len(docs) < 2 {
+		sb.WriteString("---oops\n")
+	}
 	if shape&2 == 2 {
 		sb.WriteString("---\n")
 	}
 	return sb.Bytes(), starts, ends
+}
+
+// c15Tokenize classifies the lines of a rendered stream for the model (Xp.C15.Line),
+// independently of how the stream was rendered: a line starting with "---" is a separator
+// (blanks / a comment behind it) or a malformed one; a blank line; a comment; otherwise a
+// payload line of the document whose byte range holds it. Run-length encoded.
+func c15Tokenize(stream []byte, starts, ends []int) []string {
+	var toks []string
+	off := 0
+	for _, line := range strings.SplitAfter(string(stream), "\n") {
+		if line == "" {
+			continue
+		}
+		l := strings.TrimSuffix(line, "\n")
+		tok := ""
+		switch t := strings.TrimLeft(l, " \t"); {
+		case strings.HasPrefix(l, "---"):
+			rest := strings.TrimSpace(l[3:])
+			switch {
+			case l == "---":
+				tok = "sep"
+			case rest == "" || rest[0] == '#':
+				tok = "sepc" // blanks or a comment behind the separator
+			default:
+				tok = "badsep"
+			}
+		case t == "":
+			tok = "blank"
+		case strings.HasPrefix(t, "#"):
+			tok = "comment"
+		default:
+			tok = "b9999"
+			for i := range starts {
+				if starts[i] <= off && off < ends[i] {
+					tok = fmt.Sprintf("b%d", i)
+				}
+			}
+		}
+		off += len(line)
+		toks = append(toks, tok)
+	}
+	out := []string{}
+	for i := 0; i < len(toks); {
+		j := i
+		for j < len(toks) && toks[j] == toks[i] {
+			j++
+		}
+		if j-i > 1 {
+			out = append(out, fmt.Sprintf("%sx%d", toks[i], j-i))
+		} else {
+			out = append(out, toks[i])
+		}
+		i = j
+	}
+	return out
 }
 
 // ---------------------------------------------------------------- images
@@ -513,71 +609,130 @@ type c15Image struct {
 	off    int       // offset of the stream inside src's tarball
 }
 
-func c15BuildImage(shape string, stream []byte) c15Image {
-	decoy := []byte("apiVersion: meta.pkg.crossplane.io/v1\nkind: Provider\nmetadata:\n  name: decoy\n---\napiVersion: apiextensions.k8s.io/v1\nkind: CustomResourceDefinition\nmetadata:\n  name: decoys.example.org\n")
-	junk := c15TarFile{Name: "README.md", Data: []byte("# not a package stream\n")}
-	mk := func(files ...c15TarFile) (*c15Layer, int) {
-		raw, offs := c15Tar(files)
-		return c15NewLayer(raw), offs[xpkg.StreamFile]
+// c15Decoy: a package stream that must never be installed (it sits in layers / files that
+// ImageBackend.Init has to pass over). It is a package of the revision's own type that would
+// pass every gate.
+func c15Decoy(ptype string) []byte {
+	kind, ov, ok := "Provider", "apiextensions.k8s.io/v1", "CustomResourceDefinition"
+	switch ptype {
+	case "configuration":
+		kind, ov, ok = "Configuration", "apiextensions.crossplane.io/v1", "Composition"
+	case "function":
+		kind = "Function"
 	}
+	return []byte("apiVersion: meta.pkg.crossplane.io/v1\nkind: " + kind + "\nmetadata:\n  name: decoy\n---\napiVersion: " + ov + "\nkind: " + ok + "\nmetadata:\n  name: decoys.example.org\n")
+}
+
+// c15ShapeLayers: the layers of an image layout. The image is built from this description
+// (c15BuildImage) and the model is told its Ann/Files/N part.
+func c15ShapeLayers(shape string) []c15LayerDesc {
+	sf := xpkg.StreamFile
+	junk := c15FileDesc{"README.md", "junk"}
+	real, decoy := c15FileDesc{sf, "real"}, c15FileDesc{sf, "decoy"}
 	base := map[string]string{"io.crossplane.xpkg": "base"}
-	var out c15Image
-	var adds []mutate.Addendum
+	// files whose names look like the stream file's but are not it
+	alikes := []c15FileDesc{{"." + sf, "decoy"}, {".." + sf, "decoy"}, {sf + ".bak", "decoy"}, {"dir/" + sf, "decoy"}, {"../" + sf, "decoy"}}
+	var ls []c15LayerDesc
 	switch shape {
 	case "annotated":
-		l, off := mk(junk, c15TarFile{xpkg.StreamFile, stream})
-		out.src, out.off = l, off
-		adds = []mutate.Addendum{{Layer: l, Annotations: base}}
+		ls = []c15LayerDesc{{Files: []c15FileDesc{junk, real}, annot: base, src: true}}
 	case "multi":
-		l0, _ := mk(c15TarFile{xpkg.StreamFile, decoy})
-		l1, off := mk(c15TarFile{xpkg.StreamFile, stream}, junk)
-		l2, _ := mk(c15TarFile{"examples.yaml", []byte("kind: Example\n")}, c15TarFile{xpkg.StreamFile, decoy})
-		out.src, out.off = l1, off
-		adds = []mutate.Addendum{{Layer: l0}, {Layer: l1, Annotations: base}, {Layer: l2, Annotations: map[string]string{"io.crossplane.xpkg": "examples"}}}
+		ls = []c15LayerDesc{
+			{Files: []c15FileDesc{decoy}},
+			{Files: []c15FileDesc{real, junk}, annot: base, src: true},
+			{Files: []c15FileDesc{{"examples.yaml", "junk"}, decoy}, annot: map[string]string{"io.crossplane.xpkg": "examples"}},
+		}
 	case "plain":
-		l, off := mk(c15TarFile{xpkg.StreamFile, stream})
-		out.src, out.off = l, off
-		adds = []mutate.Addendum{{Layer: l}}
+		ls = []c15LayerDesc{{Files: []c15FileDesc{real}, src: true}}
 	case "plain2":
-		l0, _ := mk(junk, c15TarFile{xpkg.StreamFile, decoy})
-		l1, off := mk(c15TarFile{"bin/provider", []byte{0, 1, 2, 3}}, c15TarFile{xpkg.StreamFile, stream})
-		out.src, out.off = l1, off
-		adds = []mutate.Addendum{{Layer: l0}, {Layer: l1}}
+		ls = []c15LayerDesc{
+			{Files: []c15FileDesc{junk, decoy}},
+			{Files: []c15FileDesc{{"bin/provider", "junk"}, real}, src: true},
+		}
 	case "twoann":
-		l0, _ := mk(c15TarFile{xpkg.StreamFile, stream})
-		l1, _ := mk(c15TarFile{xpkg.StreamFile, decoy})
-		adds = []mutate.Addendum{{Layer: l0, Annotations: base}, {Layer: l1, Annotations: base}}
+		ls = []c15LayerDesc{{Files: []c15FileDesc{real}, annot: base}, {Files: []c15FileDesc{decoy}, annot: base}}
 	case "nofile":
-		l0, _ := mk(junk)
-		adds = []mutate.Addendum{{Layer: l0, Annotations: base}}
+		ls = []c15LayerDesc{{Files: []c15FileDesc{junk}, annot: base}}
 	case "baselast":
 		// the annotated base layer is the LAST descriptor, behind unannotated layers that carry a package.yaml too
-		l0, _ := mk(c15TarFile{xpkg.StreamFile, decoy})
-		l1, _ := mk(junk, c15TarFile{xpkg.StreamFile, decoy})
-		l2, off := mk(junk, c15TarFile{xpkg.StreamFile, stream})
-		out.src, out.off = l2, off
-		adds = []mutate.Addendum{{Layer: l0}, {Layer: l1, Annotations: map[string]string{"org.example.other": "base"}}, {Layer: l2, Annotations: base}}
+		ls = []c15LayerDesc{
+			{Files: []c15FileDesc{decoy}},
+			{Files: []c15FileDesc{junk, decoy}, annot: map[string]string{"org.example.other": "base"}},
+			{Files: []c15FileDesc{junk, real}, annot: base, src: true},
+		}
 	case "otherann":
 		// a layer annotated io.crossplane.xpkg with a value other than "base" is no base layer: flattened filesystem
-		l0, _ := mk(c15TarFile{xpkg.StreamFile, decoy})
-		l1, off := mk(c15TarFile{xpkg.StreamFile, stream}, junk)
-		out.src, out.off = l1, off
-		adds = []mutate.Addendum{{Layer: l0, Annotations: map[string]string{"io.crossplane.xpkg": "upbound"}}, {Layer: l1}}
+		ls = []c15LayerDesc{
+			{Files: []c15FileDesc{decoy}, annot: map[string]string{"io.crossplane.xpkg": "upbound"}},
+			{Files: []c15FileDesc{real, junk}, src: true},
+		}
+	case "alike":
+		// the annotated base layer holds look-alike siblings IN FRONT of package.yaml
+		ls = []c15LayerDesc{{Files: append(append([]c15FileDesc{junk}, alikes...), real), annot: base, src: true}}
+	case "alike2":
+		// plain image: an upper layer adds look-alikes (the flattened file system lists upper layers first)
+		ls = []c15LayerDesc{
+			{Files: []c15FileDesc{real}, src: true},
+			{Files: append([]c15FileDesc{}, alikes[:4]...)},
+		}
+	case "alikeonly":
+		// nothing but look-alikes: there is no package.yaml, the image must be rejected
+		ls = []c15LayerDesc{{Files: append([]c15FileDesc{junk}, alikes...), annot: base}}
 	case "many", "toomany":
 		// 256 layers are allowed, 257 are not
 		n := 255
 		if shape == "toomany" {
 			n = 256
 		}
-		for i := 0; i < n; i++ {
-			l, _ := mk(c15TarFile{fmt.Sprintf("junk/%03d", i), []byte{byte(i)}})
-			adds = append(adds, mutate.Addendum{Layer: l})
-		}
-		l, off := mk(c15TarFile{xpkg.StreamFile, stream})
-		out.src, out.off = l, off
-		adds = append(adds, mutate.Addendum{Layer: l, Annotations: base})
+		ls = []c15LayerDesc{{N: n, Files: []c15FileDesc{}}, {Files: []c15FileDesc{real}, annot: base, src: true}}
 	default:
 		panic("c15: unknown image shape " + shape)
+	}
+	for i := range ls {
+		switch v, ok := ls[i].annot["io.crossplane.xpkg"]; {
+		case !ok:
+			ls[i].Ann = ""
+		case v == "base":
+			ls[i].Ann = "base"
+		default:
+			ls[i].Ann = "other"
+		}
+		if ls[i].N == 0 {
+			ls[i].N = 1
+		}
+	}
+	return ls
+}
+
+func c15BuildImage(shape, ptype string, stream []byte) c15Image {
+	var out c15Image
+	var adds []mutate.Addendum
+	k := 0
+	for _, d := range c15ShapeLayers(shape) {
+		for i := 0; i < d.N; i++ {
+			var files []c15TarFile
+			for _, f := range d.Files {
+				switch f.C {
+				case "real":
+					files = append(files, c15TarFile{f.Name, stream})
+				case "decoy":
+					files = append(files, c15TarFile{f.Name, c15Decoy(ptype)})
+				default:
+					files = append(files, c15TarFile{f.Name, []byte("# not a package stream: " + f.Name + "\n")})
+				}
+			}
+			if len(files) == 0 {
+				// layers must differ (distinct digests)
+				files = []c15TarFile{{fmt.Sprintf("junk/%03d", k), []byte{byte(k)}}}
+			}
+			raw, offs := c15Tar(files)
+			l := c15NewLayer(raw)
+			if d.src {
+				out.src, out.off = l, offs[xpkg.StreamFile]
+			}
+			adds = append(adds, mutate.Addendum{Layer: l, Annotations: d.annot})
+			k++
+		}
 	}
 	img, err := mutate.Append(empty.Image, adds...)
 	if err != nil {
@@ -591,7 +746,7 @@ func c15BuildImage(shape string, stream []byte) c15Image {
 }
 
 func c15ImgInitFails(shape string) bool {
-	return shape == "twoann" || shape == "nofile" || shape == "toomany"
+	return shape == "twoann" || shape == "nofile" || shape == "toomany" || shape == "alikeonly"
 }
 
 type c15Fetcher struct {
@@ -758,6 +913,11 @@ type c15RevW struct {
 	parses       bool
 	gk           schema.GroupKind
 	newRev       func() pkgv1.PackageRevision
+	// verification bookkeeping of the harness (independent of the Verified condition): since the
+	// revision object was last (re-)created or lost its status, did a signature reconcile run
+	// while NO ImageConfig with a verification section matched the source (skipping is legitimate),
+	// or did the validator accept the image under a best-match config?
+	verifEarned bool
 }
 
 // c15Ctl: the controllers of one package type, built once per world exactly as
@@ -769,6 +929,8 @@ type c15Ctl struct {
 	est   *c15Establisher
 	fetch *c15RegFetcher
 	val   *c15Validator
+	deps  *c15Deps
+	recList *c15RecList
 	plans *c15Plans // faults of the revision reconciler's API calls, per revision name
 	sigPl *c15Plans // faults of the signature reconciler's API calls, per revision name
 }
@@ -785,7 +947,7 @@ type c15World struct {
 	ctl     map[string]*c15Ctl
 	mu      sync.Mutex
 	cfgs    []c15Cfg // the ImageConfigs currently in the cluster
-	listErr bool     // listing ImageConfigs fails (signature steps only; never concurrent)
+	listErr string   // listing ImageConfigs fails with this error class (signature steps only; never concurrent)
 	touch   int
 }
 
@@ -844,12 +1006,14 @@ func c15NewWorld(scn *c15Scn) *c15World {
 		r := &scn.Revs[i]
 		r.Key = c15CachePath(r.Name)
 		r.SKey = c15CachePath(r.Source)
+		r.Layers = c15ShapeLayers(r.Img)
 		rw := &c15RevW{idx: i, rev: *r}
 		rw.stream, rw.starts, rw.ends = c15Stream(r.Docs, r.Shape)
-		rw.image = c15BuildImage(r.Img, rw.stream)
+		r.Lines = c15Tokenize(rw.stream, rw.starts, rw.ends)
+		rw.image = c15BuildImage(r.Img, r.PType, rw.stream)
 		rw.refName = c15RefName(r.Source)
 		rw.newRev, rw.gk, _ = c15NewRevFn(r.PType)
-		rw.parses = true
+		rw.parses = r.Shape&64 == 0 // a malformed separator line: the YAML reader gives up
 		for j, d := range r.Docs {
 			switch d.T {
 			case "bad":
@@ -917,6 +1081,10 @@ func (w *c15World) newRevObject(rw *c15RevW, desired pkgv1.PackageRevisionDesire
 	if r.Ignore {
 		t := true
 		pr.SetIgnoreCrossplaneConstraints(&t)
+	}
+	if r.Resolve {
+		f := false
+		pr.SetSkipDependencyResolution(&f)
 	}
 	return pr
 }
@@ -993,7 +1161,9 @@ func (w *c15World) ctlFor(ptype string) *c15Ctl {
 			c.fetch.imgs[rw.refName] = rw
 		}
 	}
-	c.est = &c15Establisher{w: w, gk: gk, fail: map[string]string{}, calls: map[string]*c15EstCall{}, parks: map[string]*c15Park{}}
+	c.est = &c15Establisher{w: w, gk: gk, fail: map[string]string{}, rel: map[string]string{}, calls: map[string]*c15EstCall{}, parks: map[string]*c15Park{}}
+	c.deps = &c15Deps{fail: map[string]string{}}
+	c.recList = &c15RecList{Client: w.st}
 	c.val = &c15Validator{w: w}
 	flags := &feature.Flags{}
 	if w.scn.Feature {
@@ -1006,11 +1176,11 @@ func (w *c15World) ctlFor(ptype string) *c15Ctl {
 		revision.WithCache(w.cache),
 		revision.WithNewPackageRevisionFn(newRev),
 		revision.WithFinalizer(resource.NewAPIFinalizer(fin, "revision.pkg.crossplane.io")),
-		revision.WithDependencyManager(c15Deps{}),
+		revision.WithDependencyManager(c.deps),
 		revision.WithEstablisher(c.est),
 		revision.WithParser(parser.New(w.metaS, w.objS)),
 		revision.WithParserBackend(revision.NewImageBackend(c.fetch, revision.WithDefaultRegistry(c15Registry))),
-		revision.WithConfigStore(xpkg.NewImageConfigStore(w.st, "crossplane-system")),
+		revision.WithConfigStore(xpkg.NewImageConfigStore(c.recList, "crossplane-system")),
 		revision.WithLinter(linter),
 		revision.WithVersioner(version.VerifNewWithVersion(c15XPVersion)),
 		revision.WithFeatureFlags(flags),
@@ -1083,8 +1253,19 @@ type c15Establisher struct {
 	w     *c15World
 	gk    schema.GroupKind
 	fail  map[string]string // revision name -> error class ("plain" for a plain error)
+	rel   map[string]string // revision name -> error class of ReleaseObjects
 	calls map[string]*c15EstCall
 	parks map[string]*c15Park
+}
+
+func (e *c15Establisher) armRel(rev, class string) {
+	e.mu.Lock()
+	defer e.mu.Unlock()
+	if class == "" {
+		delete(e.rel, rev)
+	} else {
+		e.rel[rev] = class
+	}
 }
 
 func (e *c15Establisher) arm(rev, class string) {
@@ -1160,14 +1341,87 @@ func (e *c15Establisher) Establish(_ context.Context, objs []runtime.Object, par
 	return refs, nil
 }
 
-func (e *c15Establisher) ReleaseObjects(context.Context, pkgv1.PackageRevision) error { return nil }
+func (e *c15Establisher) ReleaseObjects(_ context.Context, pr pkgv1.PackageRevision) error {
+	e.mu.Lock()
+	class := e.rel[pr.GetName()]
+	e.mu.Unlock()
+	if class != "" {
+		return c15Err(class, pr.GetName())
+	}
+	return nil
+}
 
-type c15Deps struct{}
+// c15Deps is the DependencyManager (long-lived, per controller): Resolve fails for a
+// revision while a step says so.
+type c15Deps struct {
+	mu   sync.Mutex
+	fail map[string]string // revision name -> error class
+}
 
-func (c15Deps) Resolve(context.Context, pkgmetav1.Pkg, pkgv1.PackageRevision) (int, int, int, error) {
+func (d *c15Deps) arm(rev, class string) {
+	d.mu.Lock()
+	defer d.mu.Unlock()
+	if class == "" {
+		delete(d.fail, rev)
+	} else {
+		d.fail[rev] = class
+	}
+}
+
+func (d *c15Deps) Resolve(_ context.Context, _ pkgmetav1.Pkg, pr pkgv1.PackageRevision) (int, int, int, error) {
+	d.mu.Lock()
+	class := d.fail[pr.GetName()]
+	d.mu.Unlock()
+	if class != "" {
+		return 0, 0, 0, c15Err(class, pr.GetName())
+	}
 	return 0, 0, 0, nil
 }
-func (c15Deps) RemoveSelf(context.Context, pkgv1.PackageRevision) error { return nil }
+func (*c15Deps) RemoveSelf(context.Context, pkgv1.PackageRevision) error { return nil }
+
+// c15RecList is the client of the revision reconciler's ImageConfigStore: listing
+// ImageConfigs fails while a step says so.
+type c15RecList struct {
+	client.Client
+	mu   sync.Mutex
+	fail string
+}
+
+func (c *c15RecList) setFail(v string) {
+	c.mu.Lock()
+	c.fail = v
+	c.mu.Unlock()
+}
+
+func (c *c15RecList) List(ctx context.Context, l client.ObjectList, opts ...client.ListOption) error {
+	c.mu.Lock()
+	bad := c.fail
+	c.mu.Unlock()
+	if bad != "" {
+		return c15ListErr(bad)
+	}
+	return c.Client.List(ctx, l, opts...)
+}
+
+// c15ListErr: the error classes a List of ImageConfigs can return.
+func c15ListErr(class string) error {
+	gk := schema.GroupKind{Group: "pkg.crossplane.io", Kind: "ImageConfig"}
+	gr := schema.GroupResource{Group: "pkg.crossplane.io", Resource: "imageconfigs"}
+	switch class {
+	case "nokind":
+		// the API is not (yet) served: what a RESTMapper answers, e.g. while CRDs are being established
+		return &meta.NoKindMatchError{GroupKind: gk, SearchedVersions: []string{"v1beta1"}}
+	case "noresource":
+		return &meta.NoResourceMatchError{PartialResource: gr.WithVersion("v1beta1")}
+	case "timeout":
+		return kerrors.NewTimeoutError("verif: injected timeout", 1)
+	case "unavailable":
+		return kerrors.NewServiceUnavailable("verif: injected")
+	case "forbidden":
+		return kerrors.NewForbidden(gr, "", errors.New("verif: injected"))
+	}
+	return errors.New("verif: injected config store failure")
+}
 
 // c15Validator is the cosign validator: its verdict is a property of (image, config).
 type c15Validator struct {
@@ -1376,8 +1630,8 @@ func (c *c15ListClient) List(ctx context.Context, l client.ObjectList, opts ...c
 	c.w.mu.Lock()
 	bad := c.w.listErr
 	c.w.mu.Unlock()
-	if bad {
-		return errors.New("verif: injected config store failure")
+	if bad != "" {
+		return c15ListErr(bad)
 	}
 	return c.Client.List(ctx, l, opts...)
 }
@@ -1402,6 +1656,7 @@ func (w *c15World) thirdParty(rw *c15RevW, env string) {
 	case "touch":
 		w.st.Mutate(rw.gk, "", n, touch)
 	case "wipe":
+		rw.verifEarned = false
 		w.st.Mutate(rw.gk, "", n, func(u *unstructured.Unstructured) { delete(u.Object, "status"); touch(u) })
 	case "flip":
 		w.st.Mutate(rw.gk, "", n, func(u *unstructured.Unstructured) {
@@ -1414,6 +1669,7 @@ func (w *c15World) thirdParty(rw *c15RevW, env string) {
 			_ = unstructured.SetNestedField(u.Object, next, "spec", "desiredState")
 		})
 	case "recreate":
+		rw.verifEarned = false
 		desired := pkgv1.PackageRevisionActive
 		if u := w.st.Peek(rw.gk, "", n); u != nil {
 			if cur, _, _ := unstructured.NestedString(u.Object, "spec", "desiredState"); cur == string(pkgv1.PackageRevisionInactive) {
@@ -1443,6 +1699,9 @@ func c15ResClass(res reconcile.Result, err error) string {
 		{"cannot install package with multiple meta types", "err:onemeta"},
 		{"cannot update package revision object metadata", "err:updmeta"},
 		{"cannot establish control of object", "err:establish"},
+		{"cannot get image pull secret from config", "err:pullcfg"},
+		{"cannot deactivate package revision", "err:deactivate"},
+		{"cannot resolve package dependencies", "err:deps"},
 		{"cannot get image verification config", "err:sigcfg"},
 		{"signature verification failed", "err:sigfail"},
 		{"cannot get package revision", "err:get"},
@@ -1542,7 +1801,7 @@ func (w *c15World) runSig(s *c15Step) (c15StepObs, []Mon) {
 	ctl.val.drain()
 	ctl.sigPl.set(rw.rev.Name, &c15ClPlan{getE: s.F.GetE, stat: s.F.Stat, rw: rw})
 	w.mu.Lock()
-	w.listErr = s.SigCfg == "err"
+	w.listErr = s.SigCfg
 	w.mu.Unlock()
 	var res reconcile.Result
 	var err error
@@ -1553,10 +1812,20 @@ func (w *c15World) runSig(s *c15Step) (c15StepObs, []Mon) {
 	}
 	ctl.sigPl.set(rw.rev.Name, nil)
 	w.mu.Lock()
-	w.listErr = false
+	w.listErr = ""
 	w.mu.Unlock()
 	calls := ctl.val.drain()
 	o := w.stepObs(rw, c15ResClass(res, err))
+	if existed && s.F.GetE == "" && before.GetDesiredState() == pkgv1.PackageRevisionActive {
+		if len(w.verifMatches(rw.rev.Source)) == 0 && s.SigCfg == "" {
+			rw.verifEarned = true // nothing asks for verification: skipping is what the clause allows
+		}
+		for _, c := range calls {
+			if c.ref == rw.refName && c.ok {
+				rw.verifEarned = true
+			}
+		}
+	}
 	// Direct monitor: Verified becomes True only when no ImageConfig with a verification section
 	// matches the image, or the validator accepted the image under the best (longest-prefix) match.
 	if existed {
@@ -1573,8 +1842,8 @@ func (w *c15World) runSig(s *c15Step) (c15StepObs, []Mon) {
 			}
 			why := ""
 			switch {
-			case s.SigCfg == "err":
-				why = "the ImageConfigs could not be listed"
+			case s.SigCfg != "":
+				why = "the ImageConfigs could not be listed (" + s.SigCfg + ")"
 			case o.Verified == "skipped" && len(matches) > 0:
 				why = fmt.Sprintf("verification skipped although ImageConfigs with a verification section match %s: %v", rw.rev.Source, matches)
 			case o.Verified == "succeeded":
@@ -1746,6 +2015,12 @@ func (w *c15World) prepRec(s *c15Step) *c15Pending {
 		}
 	}
 	ctl.est.arm(rw.rev.Name, estClass)
+	ctl.est.armRel(rw.rev.Name, s.F.Rel)
+	ctl.deps.arm(rw.rev.Name, s.F.Dep)
+	if s.F.PullCfg != "" {
+		// (never in a step that runs concurrently with another one: the store is the controller's)
+		ctl.recList.setFail(s.F.PullCfg)
+	}
 	ctl.plans.set(rw.rev.Name, &c15ClPlan{getE: s.F.GetE, upd: s.F.Upd, fin: s.F.Fin, stat: s.F.Stat, env: s.F.Env, rw: rw})
 	return pd
 }
@@ -1759,6 +2034,11 @@ func (w *c15World) finishRec(p *c15Pending) (c15StepObs, []Mon) {
 		p.ctl.fetch.setFail(rw.refName, false)
 	}
 	est := p.ctl.est.take(rw.rev.Name)
+	p.ctl.est.armRel(rw.rev.Name, "")
+	p.ctl.deps.arm(rw.rev.Name, "")
+	if s.F.PullCfg != "" {
+		p.ctl.recList.setFail("")
+	}
 	var mons []Mon
 	if p.panicked != "" {
 		mons = append(mons, Mon{Sig: "C15:panic", Why: p.panicked})
@@ -1830,6 +2110,10 @@ func (w *c15World) finishRec(p *c15Pending) (c15StepObs, []Mon) {
 		}
 		// (3) gates
 		mons = append(mons, c15GateMonitors(w, rw, s, est)...)
+		// (3b) a collaborator in front of Establish failed, yet Establish was reached
+		if s.F.PullCfg != "" || (s.F.Rel != "" && !s.Active) || (s.F.Dep != "" && rw.rev.Resolve) {
+			mons = append(mons, Mon{Sig: "C15:established-despite-failed-step", Why: fmt.Sprintf("Establish was reached although pullCfg=%q / ReleaseObjects=%q (active=%v) / Resolve=%q (resolve=%v) failed", s.F.PullCfg, s.F.Rel, s.Active, s.F.Dep, rw.rev.Resolve)})
+		}
 	}
 	// (2) a cache entry that reads back cleanly is the complete stream of its revision
 	for i, c := range o.Cache {
@@ -1962,6 +2246,10 @@ func c15GateMonitors(w *c15World, rw *c15RevW, s *c15Step, est *c15EstCall) []Mo
 			mons = append(mons, Mon{Sig: sig, Why: fmt.Sprintf("a %s revision established an object of kind %s, which the package specification does not allow", rw.rev.PType, d.GVK)})
 			break
 		}
+	}
+	// the clause itself, independent of the Verified condition: verification was required and never passed
+	if w.scn.Feature && !rw.verifEarned {
+		mons = append(mons, Mon{Sig: "C15:installed-verification-never-passed", Why: fmt.Sprintf("signature verification enabled; since revision %s was created / lost its status no signature reconcile ran while no verifying ImageConfig matched %s, and the validator never accepted the image - yet the package was established", rw.rev.Name, rw.rev.Source)})
 	}
 	// the verification gate is judged on the LIVE revision at the instant Establish is called
 	if w.scn.Feature && !(est.liveExists && est.liveVerified) {
